@@ -14,7 +14,8 @@ import sys
 import time
 
 VERIF = os.path.dirname(os.path.dirname(os.path.abspath(__file__)))
-REPO = os.environ.get("VERIF_REPO", "/repo")
+# (VP_RUN_REPO: the snapshot of /repo's HEAD that `vp run --with-repo` hands to a background run)
+REPO = os.environ.get("VERIF_REPO") or os.environ.get("VP_RUN_REPO") or "/repo"
 BUILD = os.path.join(VERIF, "build")
 SPEC = os.path.join(VERIF, "spec")
 # scratch files of one run (configurations, traces, observations): a directory of its own per process, so that
@@ -197,6 +198,16 @@ def ensure_lock(harness_dir):
 def build_harness(name, features=(), bins=None, release=True, extra_env=None):
     """Build harness/<name> (path dependency on /repo/ts-rs => always from the working tree)."""
     d = os.path.join(HARNESS, name)
+    if REPO != "/repo":
+        # the manifests name /repo: build a copy that names the other tree
+        alt = os.path.join(BUILD, "harness-alt", name)
+        shutil.rmtree(alt, ignore_errors=True)
+        shutil.copytree(d, alt, ignore=shutil.ignore_patterns("target"))
+        fp = os.path.join(alt, "Cargo.toml")
+        txt = open(fp).read().replace("/repo/", REPO.rstrip("/") + "/")
+        open(fp, "w").write(txt)
+        d = alt
+        extra_env = dict(extra_env or {}, VERIF_REPO=REPO)
     ensure_lock(d)
     args = ["build", "--offline", "-q"]
     if release:
